@@ -87,6 +87,6 @@ pub fn run_case2(f: &[&str], _home: &std::path::Path) -> String {
             format!("E {} | D {}", hex(e.as_bytes()), hex(d.as_bytes())) } } }
         "pool" => crate::pool::run_pool(f),
         "jrt" => crate::jrt::run(f),
-        _ => "?".to_string(),
+        _ => match crate::c20::run(f) { Some(r) => r, None => if ["hdr","cd","rgspec","crv","rmp","cfgb","jprop","jtyped","upat","umatch","uext","ubuild"].contains(&f[0]) { "SKIP".to_string() } else { "?".to_string() } },
     }
 }
